@@ -24,7 +24,7 @@ for patch in sorted(glob.glob(os.path.join(HERE, 'selftest', 'benign', '*.diff')
     results[name] = {'gin_tests': t.stdout.strip().split('\n')[-1], 'checks': {}}
     for pid in checks:
       q = subprocess.run([os.path.join(HERE, 'check'), pid, '--runs', runs, '--no-evidence'], cwd=HERE,
-                         env=dict(os.environ, GINSIM_REPO=scratch), capture_output=True, text=True, timeout=3600)
+                         env=dict(os.environ, GINSIM_REPO=scratch, GINSIM_REPLAYS=os.path.join(scratch, '_replays')), capture_output=True, text=True, timeout=3600)
       results[name]['checks'][pid] = q.returncode
       for line in q.stdout.split('\n'):
         if line.startswith('VIOLATION ') and 'replay=' in line:
